@@ -64,6 +64,12 @@ func runSolver(ctx context.Context, sp solverSpec, file string, sec int) (string
 			break
 		}
 	}
+	// any solver error other than the benign "no model after unsat" invalidates the answer
+	for _, ln := range strings.Split(text, "\n") {
+		if strings.Contains(ln, "(error") && !strings.Contains(ln, "model is not available") {
+			return "error", text, ms
+		}
+	}
 	switch first {
 	case "unsat", "sat", "unknown", "timeout":
 	default:
@@ -148,12 +154,10 @@ func (w *World) queryText(v *FnVC, o *Obligation, modelBound int) string {
 	var b strings.Builder
 	b.WriteString(prelude)
 	b.WriteString(w.sorts.decls.String())
+	b.WriteString(bitsDecl + "\n")
 	b.WriteString(w.decls.String())
 	b.WriteString(w.implFacts())
 	body := v.body.String()
-	if strings.Contains(body, "(band ") || strings.Contains(body, "(bor ") || strings.Contains(body, "(bxor ") || strings.Contains(body, "(bshl ") || strings.Contains(body, "(bshr ") {
-		b.WriteString(bitsDecl + "\n")
-	}
 	b.WriteString(body)
 	fmt.Fprintf(&b, "; obligation %s\n", o.Name)
 	seen := map[string]bool{}
